@@ -33,7 +33,7 @@ LEVEL_TEXT = (
 )
 LEVEL_NOTE = "Trusted: virtual loop determinism; the ledger written by the test doubles; single injected cancellation per run."
 ASSUMPTIONS = [
-    "whether a disposable whose enter FAILED is exited is not judged beyond <=1",
+    "a disposable whose enter did not complete (failed or was still suspended) must not be exited (context-manager protocol)",
     "how several cleanup errors are packaged is free: each must be reachable (identity, group leaf, or cause/context chain)",
     "__aexit__ return values (suppression) are not generated",
 ]
@@ -132,6 +132,9 @@ def judge(case, run, res, out: Outcome, inject):
         calls = ev("d_exit_call", j)
         if len(calls) > 1:
             out.violate("exit", f"C08.exit/exited-twice/{tag}", f"disposable {j}; inject={inject}")
+        if calls and j not in entered:
+            # the context-manager protocol: __aexit__ belongs to a completed __aenter__ only
+            out.violate("exit", f"C08.exit/exited-although-enter-did-not-complete/{tag}", f"disposable {j}; entered={entered}; inject={inject}")
         if j in entered and len(calls) == 0 and exit_phase_cancel:
             # the statement quantifies over how the BODY ends; a cancellation that lands after the body's last
             # instruction interrupts the cleanup itself (not judged beyond "at most once")
@@ -264,7 +267,11 @@ def _disp_strategy():
         st.builds(lambda t: {"b": "suspend_raise", "t": t}, times),
     )
     mostly_ok = st.one_of(st.just({"b": "ok"}), st.just({"b": "ok"}), beh)
-    return st.builds(lambda e, y, x: {"enter": e, "yields": y, "exit": x}, mostly_ok, st.sampled_from(YIELDS), beh)
+    exit_beh = st.one_of(beh, beh, beh, st.just({"b": "ok", "ret": True}))
+    return st.builds(
+        lambda e, y, x, a: {"enter": e, "yields": y, "exit": x, "as": a},
+        mostly_ok, st.sampled_from(YIELDS), exit_beh, st.sampled_from(["list", "list", "iter", "gen"]),
+    )  # fmt: skip
 
 
 def strategy(tier):
